@@ -439,6 +439,13 @@ def padSrc (mode : String) (dim : Nat) (c : Int) : Option Nat :=
       some (if m < d then m else p - m).toNat
   else none
 
+/-- Padded tensor of shape `outDims`: element `idx` comes from `x[idx - before]` (mapped back into
+range according to `mode`) or is the constant. -/
+def padCore (x : Tensor) (before : List Int) (outDims : List Nat) (mode : String) (cval : Int) : Tensor :=
+  build outDims (fun idx =>
+    let src := (List.range x.rank).map (fun k => padSrc mode (getN x.shape k) ((getN idx k : Int) - getI before k))
+    if src.all Option.isSome then x.get (src.map (fun o => o.getD 0)) else cval)
+
 def pad (x : Tensor) (pads : List Int) (cval : Int) (axes : Option (List Int)) (mode : String) : R Tensor := do
   let r := x.rank
   let axes ← match axes with
@@ -461,9 +468,7 @@ def pad (x : Tensor) (pads : List Int) (cval : Int) (axes : Option (List Int)) (
       ((before ++ after).any (· < 0) ||
        (List.range r).any (fun k => getN x.shape k == 0 && (getI before k != 0 || getI after k != 0))) then ambig
   else
-    pure (build (outDims.map Int.toNat) (fun idx =>
-      let src := (List.range r).map (fun k => padSrc mode (getN x.shape k) ((getN idx k : Int) - getI before k))
-      if src.all Option.isSome then x.get (src.map (fun o => o.getD 0)) else cval))
+    pure (padCore x before (outDims.map Int.toNat) mode cval)
 
 /-! ## Trilu / Range / OneHot / EyeLike -/
 
